@@ -637,7 +637,7 @@ fn win_group(
             None => false,
             Some(o) => {
                 let same_str = guard(|| o.as_str() == w.as_str()) == Some(true);
-                let same_name = guard(|| o.name() == w.name()) == Some(true);
+                let same_name = guard(|| o.name() == w.name() && w.name() == src.name()) == Some(true);
                 let same_metrics =
                     guard(|| o.column_metrics() == w.column_metrics()) == Some(true);
                 let same_start = obs(|| o.start_position(), r_pos) == start;
@@ -679,6 +679,8 @@ fn run_case(case: &Case) -> String {
             .with_column_metrics(metrics)
             .with_start_position(case.off)
     };
+    // Every other case names its source: the name must survive `clipped`, `to_owned` and `borrow` (it is not printed).
+    let src = if case.text.len() % 2 == 1 { src.with_name("src.txt") } else { src };
     let src_ref: &'static SourceTextRef<'static> = Box::leak(Box::new(src));
     let cm: Cm<'_> = if zero_off { Some((text, metrics)) } else { None };
 
